@@ -89,8 +89,27 @@ def cfg_cassegrain(rng):
             'image': (0.0, zs + q), 'real': True, 'params': {'R1': R1, 'R2': R2, 'e': e}}
 
 
+_CAT_N = {}
+
+
+def catalogue_index(name):
+    """index of a bundled catalogue medium at the test wavelength (C18 owns its correctness)"""
+    if name not in _CAT_N:
+        import contextlib, io
+        from optiland.materials import Material
+        with contextlib.redirect_stdout(io.StringIO()):
+            _CAT_N[name] = float(np.ravel(Material(name).n(W))[0])
+    return _CAT_N[name]
+
+
 def cfg_plano_hyperbolic(rng):
     n = dyadic(rng, 1.3, 4.0, 6)
+    glass = {'kind': 'ideal', 'n': n}
+    if rng.random() < 0.3:
+        # a catalogue medium (some have a dispersion formula but no extinction table): the conic follows its index
+        name = rng.choice(['CaF2', 'KBr', 'NaCl', 'LiF', 'N-BK7', 'SF11'])
+        n = catalogue_index(name)
+        glass = {'kind': 'catalog', 'name': name}
     R = -dyadic(rng, 10, 200, 2)
     f = R / (1 - n)
     t = dyadic(rng, 1, 10, 2)
@@ -102,11 +121,11 @@ def cfg_plano_hyperbolic(rng):
     sag = (yr * yr / abs(R)) / (1 + math.sqrt(1 + (n * n - 1) * yr * yr / (R * R)))
     t = t + math.ceil(sag)
     d = base([{'radius': 'inf', 'thickness': 'inf', 'material': AIR},
-              {'radius': 'inf', 'thickness': t, 'material': {'kind': 'ideal', 'n': n}, 'is_stop': True},
+              {'radius': 'inf', 'thickness': t, 'material': glass, 'is_stop': True},
               {'radius': R, 'conic': -n * n, 'thickness': f, 'material': AIR},
               {'radius': 'inf', 'thickness': 0, 'material': AIR}], ['EPD', epd])
-    return {'name': 'plano-hyperbolic singlet, conic -n^2', 'desc': d, 'image': (0.0, t + f), 'real': True,
-            'params': {'n': n, 'R': R}}
+    return {'name': 'plano-hyperbolic singlet, conic -n^2' + (' (catalogue glass)' if glass['kind'] == 'catalog' else ''),
+            'desc': d, 'image': (0.0, t + f), 'real': True, 'params': {'n': n, 'R': R, 'glass': glass}}
 
 
 def cfg_sphere_centre_mirror(rng):
@@ -251,6 +270,15 @@ def run(tier, seed, replay=None):
             if ctx.rng.random() < 0.4:      # the same system reached through set_radius / set_conic (either order)
                 c['desc']['via_setters'] = ctx.rng.choice([True, 'conic_first'])
                 c['name'] += ' (via setters)'
+            if c['desc']['aperture'][0] == 'EPD' and ctx.rng.random() < 0.25:
+                # a physical aperture on the stop surface: central obscuration and / or stop-down.  The unaberrated
+                # reference has the same pupil, so a perfect system still has Strehl 1 and every transmitted ray
+                # still meets the image point
+                st = [su for su in c['desc']['surfaces'] if su.get('is_stop')][0]
+                half = c['desc']['aperture'][1] / 2
+                st['aperture'] = {'r_max': half * ctx.rng.choice([0.6, 0.8, 2.0]),
+                                  'r_min': half * ctx.rng.choice([0.0, 0.2, 0.4])}
+                c['name'] += ' (obstructed)'
             if ctx.rng.random() < 0.25:     # ... or re-dimensioned afterwards through scale_system
                 c['scale'] = ctx.rng.choice([0.5, 2.0, 2.5, 0.125, 3.0])
                 c['post'] = [['scale', c['scale']]]
